@@ -1,10 +1,13 @@
 \* every applicable case of the bounded domain; the pinned code (no check skipped)
 CONSTANTS
-  Skip = {}
+  \* "ctx_state_check": the pinned code lacks that check (fixes/C02-1.patch); lib/prop_C02.py writes the
+  \* cfg it uses from the known-findings status, this file is the stand-alone form for the pinned tree
+  Skip = {"ctx_state_check"}
   NinSet = {1, 2}
   NchSet = {0, 1, 2}
   Emit = TRUE
   PairFlows = {"send", "late", "self", "inv", "invself"}
+  PairProof = {TRUE, FALSE}
   WithSingles = TRUE
 SPECIFICATION Spec
 INVARIANT Inv_Reply
